@@ -670,6 +670,7 @@ def oracle_c14(rep, scn, replay, obs, root, report, model_obs=None):
                     allowed.add(pre + "ascmhl/" + f)
                 if new or b is None:
                     allowed.add(pre + "ascmhl/ascmhl_chain.xml")
+                    allowed.add(pre + "ascmhl/ascmhl_chain.xml.tmp")   # the writer's own working file (a leftover of that name is replaced)
                     allowed.add(pre + "ascmhl")          # the folder's own mtime changes when an entry is added
                 if b is None:
                     allowed.add(h if h else ".")          # ... and so does the parent's when ascmhl/ is first created
